@@ -33,7 +33,7 @@ class Node:
         return getattr(self.ast, 'lineno', 0)
 
     def text(self):
-        if self.kind in ('entry', 'exit', 'raise_exit'):
+        if self.kind in ('entry', 'exit', 'raise_exit', 'join'):
             return f'<{self.kind}>'
         if self.kind == 'test':
             return f"test {unparse(self.ast)}"
@@ -96,6 +96,17 @@ class CFG:
         self.by_ast.setdefault(id(a), []).append(n.id)
         return n
 
+    def _join(self, a) -> int:
+        """synthetic end-of-loop-body node, so that T/F labels of a trailing `if` survive."""
+        ps = ast.Pass()
+        ps.lineno = getattr(a, 'end_lineno', getattr(a, 'lineno', 0))
+        n = Node(len(self.nodes), 'join', ps)
+        n.try_depth = len(self._handler_stack)
+        self.nodes.append(n)
+        self.succ[n.id] = []
+        self.pred[n.id] = []
+        return n.id
+
     def _edge(self, a, b, label):
         if (label, b) not in self.succ[a]:
             self.succ[a].append((label, b))
@@ -143,8 +154,10 @@ class CFG:
             self._loop_stack.append((h.id, brk))
             outs = self._block(st.body, [(h.id, 'loop')])
             self._loop_stack.pop()
-            for (n, l) in outs:
-                self._edge(n, h.id, 'back')
+            if outs:
+                j = self._join(st)
+                self._connect(outs, j)
+                self._edge(j, h.id, 'back')
             done = [(h.id, 'done')]
             if st.orelse:
                 done = self._block(st.orelse, done)
@@ -159,8 +172,10 @@ class CFG:
             self._loop_stack.append((t.id, brk))
             outs = self._block(st.body, [(t.id, 'T')])
             self._loop_stack.pop()
-            for (n, l) in outs:
-                self._edge(n, t.id, 'back')
+            if outs:
+                j = self._join(st)
+                self._connect(outs, j)
+                self._edge(j, t.id, 'back')
             infinite = isinstance(st.test, ast.Constant) and bool(st.test.value)
             done = [] if infinite else [(t.id, 'F')]
             if st.orelse and done:
@@ -394,7 +409,7 @@ class CFG:
         out = []
         for (nid, l, _y) in steps:
             n = self.nodes[nid]
-            if n.kind in ('entry',):
+            if n.kind in ('entry', 'join'):
                 continue
             out.append(f"{relpath}:{n.line}: {n.text()[:90]} [{l}]")
         return out
